@@ -38,6 +38,12 @@ Families of cells
          two priors; functions + data + prior objects under two geometries and noises) in both orders.  Every step
          meets the unchanged oracle of its own problem as if solved alone; problem 1 after problem 2 = before it.
 
+  gmode  gradient-mode histories on ONE problem object: the public switch enable_FD(epsilon) / disable_FD() addressed
+         to the posterior or to one of its sub-objects (likelihood, the data distribution behind it, prior) x magnitude
+         of epsilon (default 1e-8, 2^-10, 2^-1) x history (none / on / on-off / on-estimates-off), then ML() and MAP()
+         of that object (LinearModel by matrix / functions, generic Model with / without Jacobian): after disable_FD()
+         the unchanged oracle of a fresh object (exact-gradient tolerance where the model provides the gradient).
+
 Oracle (reference model = dense numpy, the forward map enters only as a black box through
 forward(0), forward(e_i)): an estimate call raises, or the optimiser reports failure, or the returned
 point x* (i) has the parameter shape, (ii) for linear-Gaussian problems equals the closed-form
@@ -85,7 +91,15 @@ RULE = ("cells = family x full configuration product (see BOUND) of sizes, Gauss
         "object x ordered pair of (prior specification, prior mean, noise); function+data+prior objects x ordered pair "
         "of (geometry with the same number of parameters, noise)); at every step MAP(), direct sampling on the "
         "complete basis and ML() (b) resp. the one estimate (a) meet the unchanged oracle, and the direct-route "
-        "results of problem 1 after problem 2 equal those before it to 1e-9")
+        "results of problem 1 after problem 2 equal those before it to 1e-9; "
+        "gradient-mode facet (family gmode): each cell is one history on ONE new problem object: the public switch calls "
+        "enable_FD(epsilon) / disable_FD() addressed to {the posterior, its likelihood, the data distribution behind the "
+        "likelihood, the prior} x epsilon in {default 1e-8, 2^-10, 2^-1} x history in {no call; enable_FD(); "
+        "enable_FD(eps), disable_FD(); enable_FD(eps), ML() and MAP() requested [not judged], disable_FD()}, then ML() "
+        "and MAP() of that object are held against the dense closed form / lattice neighbours / reference gradient: "
+        "after disable_FD() with the tolerance of a fresh object (exact-gradient termination where the model provides "
+        "the gradient), while finite differences with the default step are on with the finite-difference allowance; a "
+        "failure that a fresh object without any switch call shows alike is reported by the history 'none' cell only")
 BOUND = {
     "quick": "lg: (m,n)=(3,2) full 16x16 spec product for (matrix model, default geometry) and (function model, "
              "StepExpansion); every other model x geometry (2 x 6) and the sizes (3,3),(2,3): 34 spec pairs (each of "
@@ -120,7 +134,10 @@ BOUND = {
              "geometry, function model KLExpansion}; prior object in common x 12 ordered noise pairs (and two operators) x "
              "2 prior specs x the same 2 models; model object in common x 12 ordered pairs of 4 prior specs (zero / "
              "vector mean, two noises) x {matrix default, function KLExpansion, matrix StepExpansion}; function+data+prior "
-             "objects in common x 12 ordered pairs of the 4 geometries with n = N x 2 noise pairs",
+             "objects in common x 12 ordered pairs of the 4 geometries with n = N x 2 noise pairs; "
+             "gradient-mode histories: (3,2) x {matrix, function LinearModel, generic Model with / without Jacobian} x "
+             "{default, StepExpansion} x 2 spec pairs x zero-vector mean x 29 switch histories (none; on[default eps] x 4 "
+             "addressees; {on-off, on-estimates-off} x 4 addressees x 3 eps) x {ML, MAP}",
     "thorough": "lg: (m,n) in {(3,2),(3,3),(2,3)} x 16 likelihood specs x 16 prior specs x 2 models x 6 geometries, "
                 "plus (1,2),(2,1),(4,3) x 34 spec pairs x 2 x 6 (each cell x 4 means x 2 x {MAP, direct sampling}); "
                 "ml: 3 sizes x 16 x 2 x 6 x 2 start points; lgopt: 3 sizes x 16 x 16 x 2 x 3 x 2; nl: 16 problems x 3 "
@@ -142,7 +159,9 @@ BOUND = {
                 "of the two large problems; (b) N in {4, 6}: {function objects returning ndarray / CUQIarray, dense / csr "
                 "matrix object} x 30 ordered geometry pairs x 5 spec pairs; data / model object: all 240 ordered pairs of "
                 "the 16 specs x models as quick; prior object: 4 prior specs x 12 ordered noise pairs x 2 models; "
-                "function+data+prior: 12 geometry pairs x 12 ordered noise pairs",
+                "function+data+prior: 12 geometry pairs x 12 ordered noise pairs; gradient-mode histories: sizes (3,2),"
+                "(3,3) x 4 models x {default, StepExpansion, MappedGeometry} x 5 spec pairs x {zero-vector, vector mean} x "
+                "the 29 switch histories x {ML, MAP}",
 }
 ASSUMPTIONS = [
     "the forward map is taken as a black box: the effective parameter-to-data matrix is [forward(e_i)-forward(0)] "
@@ -183,7 +202,14 @@ ASSUMPTIONS = [
     "(gtol 1e-5 + rounding) - the finite-difference allowance applies only to the generic Model without Jacobian; the "
     "L-BFGS-B (CMRF) route has no large problem (unimodality can not be verified there) and is not part of a history; "
     "optimiser results of problem 1 before / after problem 2 are each held against the closed form, not bitwise "
-    "against each other",
+    "against each other",    "gradient-mode histories: the switch is the public enable_FD / disable_FD pair of the object it is addressed to; a "
+    "raise of a switch call is a refusal; estimates requested while a coarse caller-chosen step is on are not judged "
+    "(the approximation is the caller's choice), those with the default step 1e-8 are judged with the allowance for "
+    "2-point differences; after disable_FD() the statement's oracle applies unchanged: the optimiser is taken to be "
+    "handed the exact gradient for a LinearModel and for a generic Model with Jacobian under the default geometry "
+    "(termination tolerance 20 x (gtol 1e-5 + rounding)), approximate gradients otherwise; histories have at most one "
+    "enable / disable pair addressed to one object; switches addressed to the model or to several objects in one "
+    "history are not enumerated",
 ]
 
 PARAMS = ["cov", "prec", "sqrtcov", "sqrtprec"]
@@ -475,6 +501,9 @@ def cells(tier, seed):
                             yield {"fam": "lgopt", "m": _range_dim(op, geom, n, m), "n": n, "cat": k, "lp": lp,
                                    "ls": ls, "pp": pp, "ps": ps, "model": model, "geom": geom, "mean": mean,
                                    "op": op, "ret": ret}
+    # ---- gmode: gradient-mode histories on one problem object (switch addressed to the object / its sub-objects)
+    for c in _gm_cells(k, thorough):
+        yield c
     # ---- nl
     for name in NL_PROBLEMS:
         for var in (range(3) if thorough else range(1)):
@@ -1235,6 +1264,131 @@ def _eval_lgopt(cell):
 
 
 # ----------------------------------------------------------------------------------------
+# gradient-mode histories: the public switch enable_FD(epsilon) / disable_FD() addressed to the posterior of ONE
+# problem object or to one of its sub-objects, then the estimates of that same object
+# ----------------------------------------------------------------------------------------
+# to       which object the switch calls are addressed to: the posterior (BP.posterior), its likelihood (BP.likelihood),
+#          the data distribution behind the likelihood (BP.likelihood.distribution), the prior (BP.prior)
+# eps      magnitude of the step handed to enable_FD: the default (no argument, 1e-8), 2^-10, 2^-1
+# history  "none"        no switch call (the estimates of a fresh object; ML() behind a generic Model is judged here only)
+#          "on"          enable_FD() with the default step: the estimates are judged with the finite-difference allowance
+#          "on-off"      enable_FD(eps), disable_FD(): the object is back to the gradients it had - unchanged oracle
+#          "on-use-off"  enable_FD(eps), ML() and MAP() requested (results not judged: the step is the caller's choice),
+#                        disable_FD(): unchanged oracle
+GM_TO = ("posterior", "likelihood", "likelihood.distribution", "prior")
+GM_EPS = {"default": None, "2^-10": 2.0 ** -10, "2^-1": 0.5}
+GM_HISTORIES = {"none": (), "on": ("on",), "on-off": ("on", "off"), "on-use-off": ("on", "use", "off")}
+GM_MODELS = ("matrix", "function", "generic-jac", "generic-nograd")
+
+
+def _gm_cells(k, thorough):
+    combos = [("none", "posterior", "default")] + [("on", to, "default") for to in GM_TO] + [
+        (h, to, e) for h in ("on-off", "on-use-off") for to in GM_TO for e in GM_EPS]
+    for (m, n) in ([(3, 2), (3, 3)] if thorough else [(3, 2)]):
+        for model in GM_MODELS:
+            for geom in (("default", "step", "mapped") if thorough else ("default", "step")):
+                for (lp, ls), (pp, ps) in (SMALL_PAIRS if thorough else SMALL_PAIRS[:2]):
+                    for mean in (("zerovec", "vector") if thorough else ("zerovec",)):
+                        for (h, to, e) in combos:
+                            yield {"fam": "gmode", "m": m, "n": n, "cat": k, "lp": lp, "ls": ls, "pp": pp, "ps": ps,
+                                   "model": model, "geom": geom, "mean": mean, "history": h, "to": to, "eps": e}
+
+
+def _gm_target(BP, to):
+    obj = BP
+    for part in to.split("."):
+        obj = getattr(obj, part)
+    return obj
+
+
+def _gm_apply(BP, history, to, eps):
+    """Run the switch history on the live problem object; -> None, or the name of the exception of a refused switch."""
+    for step in GM_HISTORIES[history]:
+        try:
+            with _quiet():
+                if step == "on":
+                    if GM_EPS[eps] is None:
+                        _gm_target(BP, to).enable_FD()
+                    else:
+                        _gm_target(BP, to).enable_FD(epsilon=GM_EPS[eps])
+                elif step == "off":
+                    _gm_target(BP, to).disable_FD()
+        except HarnessError:
+            raise
+        except Exception as e:
+            return type(e).__name__
+        if step == "use":
+            for call in (BP.ML, BP.MAP):
+                try:
+                    with _quiet():
+                        call(disp=False)
+                except HarnessError:
+                    raise
+                except Exception:
+                    pass
+    return None
+
+
+def _gm_estimates(size, k, cfg, history, to, eps):
+    """-> {which: (status, kinds, obs)} of ML() and MAP() of one new problem object after the switch history."""
+    prep = _prepare(size, k, cfg)
+    if prep[0]:
+        return {w: (prep[0], {}, None) for w in ("ML", "MAP")}
+    refused = _gm_apply(prep[1].BP, history, to, eps)
+    if refused:
+        return {w: ("switch-refused:" + refused, {}, None) for w in ("ML", "MAP")}
+    # the optimiser is handed the exact gradient when the model provides it and no finite-difference mode is on
+    exact = history != "on" and (cfg["model"] in ("matrix", "function") or
+                                 (cfg["model"] == "generic-jac" and cfg["geom"] == "default"))
+    return {w: _op_estimate(size, k, cfg, w, prep=prep, exact_grad=exact) for w in ("ML", "MAP")}
+
+
+def _eval_gmode(cell):
+    res = CellResult(cell)
+    size, k = (cell["m"], cell["n"]), cell["cat"]
+    cfg = dict(BASE, lp=cell["lp"], ls=cell["ls"], pp=cell["pp"], ps=cell["ps"], mean=cell["mean"],
+               model=cell["model"], geom=cell["geom"])
+    h, to, eps = cell["history"], cell["to"], cell["eps"]
+    out = _gm_estimates(size, k, cfg, h, to, eps)
+    fresh, judged = None, 0
+    for which in ("ML", "MAP"):
+        st, kinds, obs = out[which]
+        res.transitions += 1 + len(GM_HISTORIES[h])
+        res.state("%s:%s:%s" % (h, which, st))
+        res.outcomes.add("gmode:%s:%s:%s" % (h, which, st) + (":" + "+".join(sorted(kinds)) if kinds else ""))
+        res.count("gmode:%s:%s" % (which, st.split(":")[0]))
+        if not st.startswith("judged"):
+            res.refused += 1
+            continue
+        judged += 1
+        res.evaluations += 1
+        res.transitions += 4 * cell["n"]
+        if not kinds:
+            if res.sample is None:
+                res.sample = {"config": cfg, "history": h, "to": to, "eps": eps, which: obs["returned"],
+                              "closed_form": obs["reference"], "metrics": obs["metrics"]}
+            continue
+        name = _primary(kinds)
+        if h != "none":
+            # the same estimate of a new object without any switch call: when that fails alike the history is not what
+            # matters - it is reported once, by the cell with history "none"
+            if fresh is None:
+                fresh = _gm_estimates(size, k, cfg, "none", "posterior", "default")
+            stf, kindsf, _ = fresh[which]
+            if stf.startswith("judged") and name in _names(kindsf):
+                res.count("gmode-fails-like-a-fresh-object")
+                continue
+        facet = "gradient-mode=none" if h == "none" else "gradient-mode=%s,to=%s" % (h, to)
+        res.fail("C15|BayesianProblem.%s|%s-%s|%s" % (which, _oplabel(st), name, facet),
+                 "%s() of one problem object after the switch history %s addressed to BP.%s (epsilon %s), %s (m,n)=%s: %s" % (
+                     which, list(GM_HISTORIES[h]), to, eps, _cfgstr(cfg), tuple(size),
+                     "; ".join(kinds[q] for q in KIND_ORDER if q in kinds)),
+                 focus={"size": list(size), "config": cfg, "history": h, "to": to, "eps": eps}, **(obs or {}))
+    res.nontrivial = judged > 0
+    return res
+
+
+# ----------------------------------------------------------------------------------------
 # non-linear / non-Gaussian problems (neighbour + gradient oracle only)
 # ----------------------------------------------------------------------------------------
 class _NL:
@@ -1824,4 +1978,6 @@ def eval_cell(cell):
         return _eval_nl(cell)
     if fam == "hist":
         return _eval_hist(cell)
+    if fam == "gmode":
+        return _eval_gmode(cell)
     raise HarnessError("unknown family %r" % fam)
